@@ -261,16 +261,15 @@ class TheoryOracle(walkers.DagWalker):
     @walkers.handles([op.STR_LENGTH, op.STR_INDEXOF, op.STR_TO_INT])
     def walk_str_int(self, formula: FNode, args: List[Theory], **kwargs) -> Theory:
         theory_out = self.walk_combine(formula, args, **kwargs)
-        theory_out.integer_arithmetic = True
-        theory_out.integer_difference = True
+        theory_out = theory_out.combine(Theory(integer_arithmetic=True,
+                                               integer_difference=True))
         return theory_out
 
     def walk_bv_tonatural(self, formula: FNode, args: List[Theory], **kwargs) -> Theory:
         #pylint: disable=unused-argument
         """Extends the Theory with Integer."""
-        theory_out = args[0].copy()
-        theory_out.integer_arithmetic = True
-        theory_out.integer_difference = True
+        theory_out = args[0].combine(Theory(integer_arithmetic=True,
+                                            integer_difference=True))
         return theory_out
 
     def walk_times(self, formula: FNode, args: List[Theory], **kwargs) -> Theory:
